@@ -8,7 +8,7 @@ from yast import Abort, kids, strip_cv
 class Spec:
     def __init__(self):
         self.roots = []; self.opaque = []; self.retsites = []
-        self.contracts = {}; self.loops = {}; self.loop_headers = {}; self.loop_modes = {}
+        self.contracts = {}; self.loops = {}; self.loop_headers = {}; self.loop_modes = {}; self.force_atomics = []
         self.pre = []; self.code = []; self.jobs = []; self.name = None; self.files = []
         self.drop = []; self.replays = {}; self.top_contracts = []; self.opaque_records = []; self.early = []; self.relies = []; self.pools = []; self.cuts = []
 
@@ -58,6 +58,7 @@ def parse_spec(path, spec=None, top=True, seen=None):
             if top: spec.pools += rest.split()
         elif kw == 'cut':
             if top: spec.cuts += rest.split()
+        elif kw == 'atomics': spec.force_atomics += rest.split()
         elif kw == 'code': cur = ('code',)
         elif kw == 'replay': cur = ('replay', rest.split()[0])
         elif kw == 'end': cur = None
@@ -331,6 +332,8 @@ class Unit:
 
     def atomics_text(self):
         out = []
+        for fa in self.spec.force_atomics:
+            nm, _, ct = fa.partition(':'); self.em.atomics.setdefault(nm, ct or nm)
         for s, c in sorted(self.em.atomics.items()):
             if s not in self.spec.relies: out.append(f"Y_RELY_DEFAULT({c}, {s})")
             out.append(f"Y_DEFINE_ATOMIC({c}, {s})")
